@@ -1,6 +1,7 @@
 package props
 
 import (
+	"os"
 	"encoding/json"
 	"fmt"
 	"sort"
@@ -8,6 +9,7 @@ import (
 	"strings"
 	"time"
 
+	"github.com/jhalter/mobius/hotline"
 	"github.com/jhalter/mobius/verifh/explore"
 	"github.com/jhalter/mobius/verifh/ref"
 	"github.com/jhalter/mobius/verifh/vrt"
@@ -66,6 +68,7 @@ type c12World struct {
 	// mode 1: issue the request only (one of two concurrent clients; the model copy is thrown away);
 	// mode 2: update the model only and remember the expected deliveries (reference for one order of a pair)
 	login      [3]string // current login of each slot's account ("" = the initial s<k>); a rename changes it
+	wrapped    [3]bool   // the id counter was driven round: the next connection of the slot gets its old id again
 	mode       int
 	lastExpect []c12Delivery
 	lastKnown  bool
@@ -73,7 +76,7 @@ type c12World struct {
 
 // cloneModel copies the reference state (the clients are shared: a clone in mode 2 never uses them).
 func (x *c12World) cloneModel(mode int) *c12World {
-	y := &c12World{wd: x.wd, cl: x.cl, on: x.on, ids: x.ids, nconn: x.nconn, banned: map[string]bool{}, deaf: x.deaf, canRead: x.canRead, login: x.login, mode: mode}
+	y := &c12World{wd: x.wd, cl: x.cl, on: x.on, ids: x.ids, nconn: x.nconn, banned: map[string]bool{}, deaf: x.deaf, canRead: x.canRead, login: x.login, wrapped: x.wrapped, mode: mode}
 	for k, v := range x.banned {
 		y.banned[k] = v
 	}
@@ -188,6 +191,7 @@ func (x *c12World) apply(op string, check bool) bool {
 		x.cl[k].Login123(x.loginOf(k), "p", c12Names[k], 1)
 		settle()
 		x.on[k] = true
+		x.wrapped[k] = false
 		x.ids[k] = 0
 		old := map[uint16]bool{}
 		for _, u := range before {
@@ -197,6 +201,9 @@ func (x *c12World) apply(op string, check bool) bool {
 			if !old[u.ID] {
 				x.ids[k] = u.ID
 			}
+		}
+		if os.Getenv("C12DEBUG") != "" {
+			fmt.Fprintf(os.Stderr, "on: slot %d new id %d\n", k, x.ids[k])
 		}
 		expectKnown = false
 	case "edit", "editb", "editr":
@@ -225,6 +232,36 @@ func (x *c12World) apply(op string, check bool) bool {
 			x.fail("edit/set-user-refused", fmt.Sprint(r))
 		}
 		expectKnown = false
+	case "wrap":
+		// 65,5xx connections come and go until the 16-bit id counter stands just before the id slot k had when it
+		// was last connected: the next connection gets that id again
+		if x.on[k] || x.ids[k] == 0 || x.mode != 0 {
+			return false
+		}
+		inUse := map[uint16]bool{}
+		for _, u := range x.wd.UserList(x.probe()) {
+			inUse[u.ID] = true
+		}
+		want := x.ids[k] - 1 // the last free id before the old one (ids in use are skipped by the server)
+		for want == 0 || inUse[want] {
+			want--
+		}
+		vrt.Unmanaged(func() {
+			cc := &hotline.ClientConn{}
+			for i := 0; i < 70000; i++ {
+				x.wd.Srv.ClientMgr.Add(cc)
+				got := uint16(cc.ID[0])<<8 | uint16(cc.ID[1])
+				x.wd.Srv.ClientMgr.Delete(cc.ID)
+				if got == want {
+					break
+				}
+			}
+		})
+		x.wrapped[k] = true
+		expectKnown = false
+		if os.Getenv("C12DEBUG") != "" {
+			fmt.Fprintf(os.Stderr, "wrap: slot %d old id %d\n", k, x.ids[k])
+		}
 	case "deaf":
 		if !x.on[k] || x.deaf[k] {
 			return false
@@ -497,7 +534,7 @@ func (x *c12World) canon() string {
 		b = append(b, k)
 	}
 	sort.Strings(b)
-	fmt.Fprintf(&sb, " left%v deaf%v read%v login%v", b, x.deaf, x.canRead, x.login)
+	fmt.Fprintf(&sb, " left%v deaf%v read%v login%v wrapped%v", b, x.deaf, x.canRead, x.login, x.wrapped)
 	// the implementation's own chat table (for deduplication only): diverging states are expanded, not merged
 	for ci, c := range x.chats {
 		if len(c.id) == 4 {
@@ -764,7 +801,7 @@ func c12Pair(p c12PairParams) func() explore.SchedOutcome {
 
 func c12Alphabet() []string {
 	return []string{
-		"on:0", "on:1", "on:2", "off:0", "off:1", "off:2", "deaf:0", "deaf:2", "edit:0", "edit:1", "editb:0", "editr:0", "editr:2",
+		"on:0", "on:1", "on:2", "off:0", "off:1", "off:2", "deaf:0", "deaf:2", "edit:0", "edit:1", "editb:0", "editr:0", "editr:2", "wrap:1", "wrap:2",
 		"pub:0:plain", "pub:0:emote", "pub:0:emote4", "pub:0:zero", "pub:0:long", "pub:0:edge", "pub:0:longemote", "pub:1:plain", "pub:1:long", "pub:2:plain",
 		"new:0:1", "new:0:2", "new:1:0", "new:1:2",
 		"inv:0:0:2", "inv:1:0:2", "inv:1:1:0",
@@ -782,6 +819,19 @@ func runC12(w *explore.Worker) {
 		depth = 5
 	}
 	explore.ExploreHistories(w, explore.SeqConfig{Name: "C12chat", Alphabet: c12Alphabet(), Depth: depth, Exec: c12Exec})
+	// deeper than the search: a member disconnects, the id counter wraps, a new connection gets its id - and is not
+	// a member of anything
+	if w.Mine(4) {
+		for _, last := range []string{"priv:0:0:plain", "subj:0:0", "leave:0:0", "inv:0:0:2"} {
+			h := []string{"new:0:1", "join:1:0", "off:1", "wrap:1", "on:1", last}
+			w.Eval()
+			res := c12Exec(h)
+			for _, v := range res.Violations {
+				w.Violation(v.Signature, v.Detail+"\nhistory: "+strings.Join(h, " ; "), len(h), explore.SeqReplay{Kind: "history", Harness: "C12chat", History: h})
+			}
+			w.Outcome("ghost " + last + " " + fmt.Sprint(len(res.Violations)))
+		}
+	}
 	// pairs of concurrent operations from three base states
 	bound := 1
 	if w.Thorough {
